@@ -206,6 +206,14 @@ def run_check(prop: str, tier: str, seed: int, only: str | None = None) -> int:
             )
             return 2
 
+    if hasattr(mod, "finalize"):
+        # cross-case oracle (e.g. equal digests of the same call across histories / processes)
+        for cid, v in mod.finalize(results):
+            for r in results:
+                if r["case"]["id"] == cid:
+                    r["status"] = "violation"
+                    r["violations"].append(v)
+                    break
     return _report(mod, prop, tier, seed, cases, results, capped, time.time() - t0)
 
 
@@ -300,6 +308,11 @@ def _report(mod, prop, tier, seed, cases, results, capped, wall) -> int:
         "wall_s": round(wall, 2),
         "violations": n_viol,
     }
+    if hasattr(mod, "coverage_extra"):
+        try:
+            ev["coverage"].update(jsonable(mod.coverage_extra(results)))
+        except Exception as e:
+            ev["coverage"]["coverage_extra_error"] = repr(e)
     evdir = os.environ.get("VERIF_EVIDENCE_DIR") or os.path.join(compat.VERIF_ROOT, "evidence")
     os.makedirs(evdir, exist_ok=True)
     with open(os.path.join(evdir, f"{prop}.json"), "w") as f:
